@@ -66,3 +66,18 @@ Theorem C01_whole_speed_limit_step : forall (e : Env (F:=R)) pts fmax (s s'' : S
     cs_pwr_out (cn_state c') = ConsistP.sumR (fun x => x) shares /\
     k_dt (ts_k (sl_st s'')) = k_dt (ts_k (sl_st s)).
 Proof. exact sl_full_step_units. Qed.
+
+(* (imported here, after the statements above, to keep their name resolution unchanged) *)
+From AltModel Require Import SpeedPoints PathGeom Resist Braking TrainStep TrainEnergy TrainFull WholeSim.
+From AltProofs Require Import SpeedPointsP PathGeomP TrainFullP WholeSimP WholeSplitP TimedTraceP.
+
+(* ---- the simulation of a DISPATCHED train (SpeedLimitTrainSim::walk_timed_path; proofs/TimedTraceP.v): it consists of
+   whole steps and braking-point re-computations only, and at EVERY step every unit of the consist obeys the per-unit laws
+   (power ledger, energy ledger kept, SOC relation, delivered power = share), the consist's delivered power is the sum of the shares, and no unit's cumulative loss / fuel / braking energy
+   decreases.  Hypotheses: positive step size, well-formed units at the start. ---- *)
+Theorem C01_dispatched_train : forall fuel_bp fuel_steps (net : list LinkR) (tp : TPR) tl rp fmax fb st cache (con : ConsistR) x',
+  sl_timed_walk fuel_bp fuel_steps net tp tl rp fmax fb st cache con = Ok x' ->
+  0 < k_dt (ts_k st) -> Forall loco_ok (cn_locos con) ->
+  tw_trace fmax any_pts units_step ({| sl_st := st; sl_cache := cache; sl_fb := fb; sl_idx := 0 |}, con) x' /\
+  Forall loco_ok (cn_locos (snd x')).
+Proof. exact sl_timed_walk_units. Qed.
